@@ -34,6 +34,9 @@ type World struct {
 	// right after it
 	lostH, lostD map[string]bool
 	refused int
+	// both real loop goroutines came to rest (nothing pending) since the last committed block, after an outage script:
+	// a refusal now is a refusal after the DA layer has accepted everything
+	realQuietH, realQuietD bool
 	okData  int // accepting data ticks (empty script) since the last committed block / non-accepting data tick
 	// a crash may have taken the durable record of an acknowledgement with it: the restarted node then counts blocks
 	// the DA layer holds as still waiting, and is right to - it cannot know. Justified until the next accepting tick
@@ -148,6 +151,7 @@ func Run(c *hx.Ctx) {
 			w.da = hx.NewDA()
 			w.ts = o.I64("gt")
 			w.lastInc, w.lastHwm, w.lastDwm, w.crashed, w.refused, w.okData = 0, 0, 0, false, 0, 0
+			w.realQuietH, w.realQuietD = false, false
 			w.lostAckH, w.lostAckD = false, false
 			w.lostH, w.lostD = map[string]bool{}, map[string]bool{}
 			c.Emit("%s", w.start(nil, ""))
@@ -173,13 +177,19 @@ func Run(c *hx.Ctx) {
 			refused := err == nil && e.Height() == hb && e.Seq.Calls == calls && len(e.Exec.Calls) == execs && e.DS.NumWrites() == w.from
 			if e.Height() != hb {
 				w.okData = 0
+				w.realQuietH, w.realQuietD = false, false
 			}
 			if refused {
 				cls = "refused"
 				w.refused++
+				if w.realQuietH && w.realQuietD {
+					nh, nd := e.M.VerifPendingCounts()
+					c.Report("C08/refuses/after-outage-real-loop-came-to-rest", fmt.Sprintf("the unmodified header and data submission loops ran until nothing was pending (the DA layer accepted after the scripted outage), no block was committed since, yet production is refused: limit %d, counters %d/%d", e.Options.MaxPending, nh, nd))
+				}
 				w.checkRefusal()
 			}
 			c.Emit("produced out=%s %s", cls, w.state())
+			w.checkCounters("produce")
 		case "subh", "subd":
 			e := w.env
 			w.da.Script = nil
@@ -281,11 +291,22 @@ func Run(c *hx.Ctx) {
 				c.Report("C06/real-loop/does-not-come-to-rest", fmt.Sprintf("%s: still pending after 3 s of ticks with an accepting DA layer: %s", o.Verb, w.state()))
 			}
 			c.Emit("%s out=%s calls=%s %s w=%s", o.Verb, out, cs, w.state(), bm.DescribeWrites(e.DS, w.from))
+			if !quiet {
+				// the DA layer accepts once the script is used up: a loop that does not resume is the C08 liveness
+				// violation (outage of finite length), whatever else it is
+				c.Report("C08/refuses/after-outage-real-loop-does-not-resume", fmt.Sprintf("%s script=%s: the DA layer accepts again after the scripted answers, the loop still has blocks pending after 3 s: %s", o.Verb, o.Str("script"), w.state()))
+			}
 			if isData {
-				w.okData, w.lostAckD = 2, false
+				if quiet {
+					w.okData, w.lostAckD = 2, false
+				}
+				w.realQuietD = quiet
 				w.monitorSubmit("subd", n0, left)
 			} else {
-				w.lostAckH = false
+				if quiet {
+					w.lostAckH = false
+				}
+				w.realQuietH = quiet
 				w.monitorSubmit("subh", n0, left)
 			}
 		case "incl", "inclreal":
@@ -325,6 +346,7 @@ func Run(c *hx.Ctx) {
 					keep = w.from + k
 				}
 				w.crashed = true
+				w.realQuietH, w.realQuietD = false, false
 				if keep < n {
 					w.lostAckH, w.lostAckD = true, true
 					w.okData = 0
@@ -503,6 +525,7 @@ func (w *World) onDA(kind string, h uint64) []uint64 {
 
 func (w *World) monitorSubmit(verb string, n0, scriptLeft int) {
 	c, e := w.c, w.env
+	w.checkCounters(verb)
 	ctx := context.Background()
 	hm, dm := e.M.VerifLastSubmitted()
 	if hm < w.lastHwm || dm < w.lastDwm {
@@ -642,6 +665,9 @@ func (w *World) checkRefusal() {
 		return
 	}
 	nh, nd := e.M.VerifPendingCounts()
+	if !w.checkCounters("refusal") {
+		return // a counter that is not chain height minus watermark is its own violation, nothing below explains it
+	}
 	if (nh >= limit && w.lostAckH) || (nd >= limit && w.lostAckD) {
 		return
 	}
@@ -666,7 +692,7 @@ func (w *World) checkRefusal() {
 			}
 		}
 		switch {
-		case nonEmpty >= limit || empties == 0:
+		case nonEmpty >= limit || empties == 0 || nonEmpty+empties != nd:
 			c.Report("C08/refuses/other", fmt.Sprintf("limit %d, waiting headers %d data %d, counters %d/%d, above the data watermark: %d non-empty, %d empty", limit, waitH, waitD, nh, nd, nonEmpty, empties))
 		case w.okData >= 2:
 			// two accepting data ticks since the last committed block: the loop had its chance (defect repaired by 5533199)
@@ -679,6 +705,21 @@ func (w *World) checkRefusal() {
 	default:
 		c.Report("C08/refuses/other", fmt.Sprintf("limit %d, waiting headers %d data %d, counters %d/%d", limit, waitH, waitD, nh, nd))
 	}
+}
+
+// checkCounters: the two pending counters are, by definition (pending_base.go numPending), chain height minus the
+// last-submitted height of their kind - exactly; an over- or under-counting counter is reported here and never
+// attributed to a recorded finding
+func (w *World) checkCounters(when string) bool {
+	e := w.env
+	nh, nd := e.M.VerifPendingCounts()
+	hm, dm := e.M.VerifLastSubmitted()
+	h := e.Height()
+	if nh != h-hm || nd != h-dm {
+		w.c.Report("C08/counter/differs-from-height-minus-watermark", fmt.Sprintf("after %s: height %d, last submitted %d/%d, counters %d/%d (expected %d/%d)", when, h, hm, dm, nh, nd, h-hm, h-dm))
+		return false
+	}
+	return true
 }
 
 // checkIncBounds: right after a (re)start the reported DA-included height is at most the chain height and does not
